@@ -28,8 +28,9 @@ def make_record(key: str, integrity, time: int, size: int, metadata=None, raw=No
 def naive_entries(data: bytes):
     """naive reader: newline-separated lines, each "<hex sha256 of json>\\t<json object>"; others ignored"""
     out = []
-    for line in data.split(b"\n"):
-        if line.endswith(b"\r"):
+    segs = data.split(b"\n")
+    for n, line in enumerate(segs):
+        if line.endswith(b"\r") and n < len(segs) - 1:     # a CR is part of the line ending only before a LF
             line = line[:-1]
         parts = line.split(b"\t")
         if len(parts) != 2:
